@@ -131,6 +131,16 @@ def Op.isRead : Op → Bool
   | .dRead _ | .lRead _ => true
   | _ => false
 
+/-- `Sequence.index` (the ABC mix-in) touches the collection only if it calls
+`len(self)` (negative bounds) or enters its loop; otherwise it raises
+`ValueError` without loading. -/
+def Op.skipsLoad : Op → Bool
+  | .lRead (.index _ start stop) =>
+    match stop with
+    | none => false
+    | some b => decide (0 ≤ start) && decide (0 ≤ b) && decide (b ≤ start)
+  | _ => false
+
 /-- does the operation replace the whole content (no load needed at the root)? -/
 def Op.isOverwrite : Op → Bool
   | .dClear | .lClear | .dReset _ | .lReset _ => true
@@ -261,7 +271,8 @@ def call (s : State) (h : Handle) (op : Op) : State × CallOut :=
       | some e => (s, .error e)
       | none =>
         -- 2. load (root-level overwrites skip it)
-        let (s1, lerr) := if op.isOverwrite && isRoot then (s, none) else loadRoot s oi
+        let (s1, lerr) :=
+          if (op.isOverwrite && isRoot) || op.skipsLoad then (s, none) else loadRoot s oi
         match lerr with
         | some e => (s1, .error e)
         | none =>
